@@ -2,6 +2,7 @@
 import json
 import random
 
+import mspan
 import textgen
 import vlib
 from vlib import hx, unhx
@@ -120,6 +121,11 @@ def run(res):
     st = vlib.correspond(res, "span", cases, impl, model, describe, nontrivial, oracle)
     if st["disagreements"] == 0 and st["oracle_failures"] == 0:
         res.discharged.append(name)
+    name_b = "correspondence:multi-entry reports (one annotation and one label per entry, no panic)"
+    res.obligations.append(name_b)
+    stb = mspan.run_stream(res, mspan.oracle_c06, "multi-entry-spans")
+    if stb["disagreements"] == 0 and stb["oracle_failures"] == 0:
+        res.discharged.append(name_b)
     kinds = {}
     for c, a in zip(cases, impl):
         k = parse(c)[0] + ":" + a.split()[0]
